@@ -25,6 +25,9 @@ type cenv struct {
 	old    hstate
 	pkg    string
 	depth  int
+	atEntry func() *cenv // environment of the enclosing loop's entry edge (for atentry())
+	nextEnv func() *cenv // environment at the end of the iteration (for next() in step clauses)
+	loopEnvOf func(n int) *cenv // header environment of loop n (for loopval())
 }
 
 func (e *enc) newEnv() *cenv {
@@ -560,6 +563,30 @@ func (c *cenv) call(x *CCall) (cval, error) {
 			}
 		}
 		return ch.term(x.Args[0])
+	case "atentry":
+		if len(x.Args) != 1 || c.atEntry == nil {
+			return cval{}, fmt.Errorf("atentry(e) is only available in loop clauses")
+		}
+		return c.atEntry().term(x.Args[0])
+	case "next":
+		if len(x.Args) != 1 || c.nextEnv == nil {
+			return cval{}, fmt.Errorf("next(e) is only available in loop step clauses")
+		}
+		return c.nextEnv().term(x.Args[0])
+	case "loopval":
+		if len(x.Args) != 2 || c.loopEnvOf == nil {
+			return cval{}, fmt.Errorf("loopval(n, e) is only available in ensures clauses")
+		}
+		lit, ok := x.Args[0].(*CLit)
+		if !ok || lit.Kind != "int" {
+			return cval{}, fmt.Errorf("loopval: first argument must be a loop ordinal")
+		}
+		n, _ := strconv.Atoi(lit.Val)
+		le := c.loopEnvOf(n)
+		if le == nil {
+			return cval{}, fmt.Errorf("loopval: no loop %d", n)
+		}
+		return le.term(x.Args[1])
 	case "ite":
 		a, err := c.args(x, 3)
 		if err != nil {
